@@ -22,8 +22,48 @@ TYPES = [
     ("calculate", "calculate"), ("hidden", "hidden"), ("string", "string"), ("int", "int"), ("q date", "q date"),
     ("file", "file"), ("rank L", "rank"),
 ]
-NO_CTL = {"calculate", "hidden", "start", "end", "today", "deviceid"}
-VISIBLE_TYPES = [t for t in TYPES if t[1] not in NO_CTL]
+CTL_TAGS = {"input", "select", "select1", "upload", "trigger", "range", "odk:rank", "osm"}
+
+
+def type_table():
+    """facts of the implementation's question type table (data only): name -> (has control, has bind)"""
+    from pyxform.question_type_dictionary import QUESTION_TYPE_DICT
+
+    return {t: ((e.get("control") or {}).get("tag") in CTL_TAGS, "bind" in e) for t, e in QUESTION_TYPE_DICT.items()}
+
+
+_TT = None
+
+
+def has_ctl(tname: str) -> bool:
+    global _TT
+    if _TT is None:
+        _TT = type_table()
+    return _TT.get(tname, (True, True))[0]
+
+
+def enumerable_types():
+    """every type of the type table that can be typed into the type cell as is (selects are covered through
+    `select_one L` …; aliased spellings are renamed by xls2json; externals have no node; audit lives in meta;
+    background-geopoint needs a trigger)"""
+    global _TT
+    if _TT is None:
+        _TT = type_table()
+    from pyxform import aliases
+
+    skip = set(aliases._type_alias_map) | {"audit", "xml-external", "csv-external", "background-geopoint", "calculate"}
+    return [t for t in _TT if t not in skip and "select" not in t and t != "rank"]
+
+
+def image_default(tname, d):
+    """harness copy of xls2json.process_image_default (photo rows only)"""
+    if tname == "photo" and d and "jr://images/" not in d:
+        return "jr://images/" + d
+    return d
+
+
+NO_CTL = {"calculate"}  # types the generator treats as "usually unlabelled"; control facts come from has_ctl()
+VISIBLE_TYPES = [t for t in TYPES if t[1] != "calculate" and t[1] != "hidden"]
 
 # default texts by class (the property's quantifier)
 D_LITERAL = ["abc", "hello world", "yes", "a-b", "x.y", "A_1", "été", "no way", "a b c", "true", "mod", "div", "a:b", "q1"]
@@ -95,9 +135,11 @@ class Gen:
     def question(self, ref_names):
         rng = self.rng
         cell, tname = rng.choice(TYPES)
+        if rng.random() < 0.12:
+            cell = tname = rng.choice(enumerable_types())
         q = {"k": "q", "name": self.name("q"), "cell": cell, "type": tname, "default": "", "calc": "", "trigger": "",
              "labelled": True, "dclass": "none"}
-        if tname in NO_CTL:
+        if not has_ctl(tname):
             q["labelled"] = rng.random() < 0.15
         elif rng.random() < 0.04:
             q["labelled"] = False
@@ -148,7 +190,7 @@ class Gen:
         qs = self.questions
         if not qs:
             return
-        visible = [q for q in qs if q["type"] not in NO_CTL and q["labelled"] and not q["calc"]]
+        visible = [q for q in qs if has_ctl(q["type"]) and q["labelled"] and not q["calc"]]
         for q in qs:
             if rng.random() > (0.5 if q["type"] == "calculate" or q["calc"] else 0.12):
                 continue
@@ -171,7 +213,7 @@ class Gen:
                 q["trigger"] = "${%s}" % rng.choice(self.sections)["name"]
                 q["tclass"] = "section"
             elif r < 0.91:
-                hidden = [h for h in qs if h is not q and h["type"] in NO_CTL and h["type"] != "calculate" and not h["calc"] and not h["trigger"]]
+                hidden = [h for h in qs if h is not q and not has_ctl(h["type"]) and h["type"] != "calculate" and not h["calc"] and not h["trigger"]]
                 calcs = [h for h in qs if h is not q and (h["type"] == "calculate" or (h["calc"] and not h["labelled"]))]
                 pool = hidden + (calcs if rng.random() < 0.4 else [])
                 if pool:
